@@ -1,6 +1,6 @@
-//! Reader for the `dot` crate's output as rsbdd produces it: one statement per line,
-//! `ID[label="..."];` for nodes and `ID -> ID[label="..."];` for edges, labels escaped
-//! with Rust's `char::escape_default`.
+//! Reader for the DOT subset rsbdd's exporters use: one statement per line, node statements
+//! `ID [attributes]`, edge statements `ID -> ID [attributes]`, string values with the escapes of
+//! Rust's `char::escape_default` (or written raw). It reads by structure, not by layout.
 
 use std::collections::{BTreeMap, BTreeSet};
 
@@ -50,48 +50,140 @@ fn unescape(s: &str) -> Result<String, String> {
     Ok(out)
 }
 
-fn is_id_char(c: char) -> bool {
-    c.is_ascii_alphanumeric() || c == '_'
+/// One token of a statement: an identifier / bare value, a quoted string (unescaped), or a
+/// punctuation mark.
+#[derive(Clone, Debug, PartialEq)]
+enum Tok {
+    Id(String),
+    Str(String),
+    Arrow,
+    Open,
+    Close,
+    Eq,
+    Comma,
 }
 
-/// Split `rest` = `[label="...escaped..."];` into the raw escaped label.
-fn take_label(rest: &str) -> Result<&str, String> {
-    let rest = rest.strip_prefix("[label=\"").ok_or_else(|| format!("expected [label=\" in {rest:?}"))?;
-    // find the closing quote that is not escaped
-    let bytes = rest.as_bytes();
+fn tokens(line: &str) -> Result<Vec<Tok>, String> {
+    let cs: Vec<char> = line.chars().collect();
     let mut i = 0;
-    while i < bytes.len() {
-        match bytes[i] {
-            b'\\' => i += 2,
-            b'"' => {
-                let tail = &rest[i + 1..];
-                if tail != "];" {
-                    return Err(format!("unexpected text after label: {tail:?}"));
+    let mut out = Vec::new();
+    while i < cs.len() {
+        let c = cs[i];
+        if c.is_whitespace() || c == ';' {
+            i += 1;
+        } else if c == '"' {
+            let mut raw = String::new();
+            i += 1;
+            loop {
+                match cs.get(i) {
+                    None => return Err("unterminated string".into()),
+                    Some('\\') => {
+                        raw.push('\\');
+                        if let Some(n) = cs.get(i + 1) {
+                            raw.push(*n);
+                        }
+                        i += 2;
+                    }
+                    Some('"') => {
+                        i += 1;
+                        break;
+                    }
+                    Some(ch) => {
+                        raw.push(*ch);
+                        i += 1;
+                    }
                 }
-                return Ok(&rest[..i]);
             }
-            _ => i += 1,
+            out.push(Tok::Str(unescape(&raw)?));
+        } else if c == '[' {
+            out.push(Tok::Open);
+            i += 1;
+        } else if c == ']' {
+            out.push(Tok::Close);
+            i += 1;
+        } else if c == '=' {
+            out.push(Tok::Eq);
+            i += 1;
+        } else if c == ',' {
+            out.push(Tok::Comma);
+            i += 1;
+        } else if c == '-' && matches!(cs.get(i + 1), Some('>') | Some('-')) {
+            out.push(Tok::Arrow);
+            i += 2;
+        } else {
+            let st = i;
+            while i < cs.len() && !(cs[i].is_whitespace() || matches!(cs[i], '[' | ']' | '=' | ',' | ';' | '"')) && !(cs[i] == '-' && matches!(cs.get(i + 1), Some('>') | Some('-'))) {
+                i += 1;
+            }
+            out.push(Tok::Id(cs[st..i].iter().collect()));
         }
     }
-    Err("unterminated label".into())
+    Ok(out)
 }
 
-pub fn parse_dot(text: &str) -> Result<DotGraph, String> {
-    let mut lines = text.split('\n').collect::<Vec<_>>();
-    if lines.last() == Some(&"") {
-        lines.pop();
-    } else {
-        return Err("output does not end with a newline".into());
+/// The `label` of an attribute list `[k=v, k=v ..]` starting at `toks[i]` (None: no label given).
+fn label_in(toks: &[Tok], mut i: usize) -> Result<Option<String>, String> {
+    let mut label = None;
+    if i >= toks.len() {
+        return Ok(None);
     }
+    if toks[i] != Tok::Open {
+        return Err(format!("expected an attribute list, found {:?}", toks[i]));
+    }
+    i += 1;
+    while i < toks.len() && toks[i] != Tok::Close {
+        if toks[i] == Tok::Comma {
+            i += 1;
+            continue;
+        }
+        let key = match &toks[i] {
+            Tok::Id(k) | Tok::Str(k) => k.clone(),
+            other => return Err(format!("bad attribute key {other:?}")),
+        };
+        if toks.get(i + 1) != Some(&Tok::Eq) {
+            return Err(format!("attribute {key} without a value"));
+        }
+        let val = match toks.get(i + 2) {
+            Some(Tok::Id(v)) | Some(Tok::Str(v)) => v.clone(),
+            other => return Err(format!("bad value for attribute {key}: {other:?}")),
+        };
+        if key == "label" {
+            label = Some(val);
+        }
+        i += 3;
+    }
+    if i >= toks.len() {
+        return Err("unterminated attribute list".into());
+    }
+    if i + 1 != toks.len() {
+        return Err("text after the attribute list".into());
+    }
+    Ok(label)
+}
+
+/// Reads a DOT text by structure, not by layout: `[strict] digraph|graph [name] {`, one statement
+/// per line, `}`; comments, blank lines, indentation, `;`, default-attribute statements
+/// (`graph [..]`, `node [..]`, `edge [..]`) and graph attributes (`k=v`) are layout. A node
+/// statement is `id [attributes]`, an edge statement `id -> id [attributes]`; only the `label`
+/// attribute is read, wherever it stands (default: the id for nodes, empty for edges).
+pub fn parse_dot(text: &str) -> Result<DotGraph, String> {
+    let lines: Vec<&str> = text.split('\n').map(str::trim).filter(|l| !l.is_empty() && !l.starts_with("//") && !l.starts_with('#')).collect();
     if lines.len() < 2 {
         return Err("too short".into());
     }
     let head = lines[0];
-    let name = head
-        .strip_prefix("digraph ")
-        .and_then(|r| r.strip_suffix(" {"))
-        .ok_or_else(|| format!("bad header {head:?}"))?
-        .to_string();
+    let mut words = head.strip_suffix('{').ok_or_else(|| format!("bad header {head:?}"))?.split_whitespace();
+    let mut kw = words.next().unwrap_or("");
+    if kw == "strict" {
+        kw = words.next().unwrap_or("");
+    }
+    if kw != "digraph" && kw != "graph" {
+        return Err(format!("bad header {head:?}"));
+    }
+    let name = words.next().unwrap_or("").to_string();
+    if words.next().is_some() {
+        return Err(format!("bad header {head:?}"));
+    }
     if lines[lines.len() - 1] != "}" {
         return Err("missing closing brace".into());
     }
@@ -101,21 +193,58 @@ pub fn parse_dot(text: &str) -> Result<DotGraph, String> {
         edges: Vec::new(),
     };
     for l in &lines[1..lines.len() - 1] {
-        let body = l.strip_prefix("    ").ok_or_else(|| format!("statement not indented: {l:?}"))?;
-        let id_end = body.find(|c: char| !is_id_char(c)).ok_or_else(|| format!("bad statement {l:?}"))?;
-        let id = &body[..id_end];
+        let toks = tokens(l).map_err(|e| format!("{e} in {l:?}"))?;
+        let id = match toks.first() {
+            Some(Tok::Id(s)) | Some(Tok::Str(s)) => s.clone(),
+            _ => return Err(format!("bad statement {l:?}")),
+        };
         if id.is_empty() {
             return Err(format!("empty id in {l:?}"));
         }
-        let rest = &body[id_end..];
-        if let Some(r2) = rest.strip_prefix(" -> ") {
-            let t_end = r2.find(|c: char| !is_id_char(c)).ok_or_else(|| format!("bad edge {l:?}"))?;
-            let target = &r2[..t_end];
-            let label = unescape(take_label(&r2[t_end..])?)?;
-            g.edges.push((id.to_string(), target.to_string(), label));
+        if matches!(toks.first(), Some(Tok::Id(_))) && matches!(id.as_str(), "graph" | "node" | "edge") && matches!(toks.get(1), Some(Tok::Open) | None) {
+            continue; // default attributes
+        }
+        if toks.get(1) == Some(&Tok::Eq) {
+            continue; // a graph attribute
+        }
+        if toks.get(1) == Some(&Tok::Arrow) {
+            let target = match toks.get(2) {
+                Some(Tok::Id(s)) | Some(Tok::Str(s)) => s.clone(),
+                _ => return Err(format!("bad edge {l:?}")),
+            };
+            let label = label_in(&toks, 3).map_err(|e| format!("{e} in {l:?}"))?.unwrap_or_default();
+            g.edges.push((id, target, label));
         } else {
-            let label = unescape(take_label(rest)?)?;
-            g.nodes.push((id.to_string(), label));
+            let label = label_in(&toks, 1).map_err(|e| format!("{e} in {l:?}"))?.unwrap_or_else(|| id.clone());
+            g.nodes.push((id, label));
+        }
+    }
+    Ok(g)
+}
+
+/// A diagram export with its leaves under canonical ids: a node without outgoing edges whose label
+/// is `true` / `false` is the leaf, whatever id the exporter gave it (a test node always has an
+/// outgoing edge, also in a filtered export). All diagram oracles work on this form.
+pub fn parse_bdd_dot(text: &str) -> Result<DotGraph, String> {
+    let mut g = parse_dot(text)?;
+    let sources: BTreeSet<String> = g.edges.iter().map(|(s, _, _)| s.clone()).collect();
+    let mut rename: BTreeMap<String, String> = BTreeMap::new();
+    for (id, label) in &g.nodes {
+        if !sources.contains(id) && (label == "true" || label == "false") {
+            rename.insert(id.clone(), format!("n_{label}"));
+        }
+    }
+    for (id, _) in g.nodes.iter_mut() {
+        if let Some(n) = rename.get(id) {
+            *id = n.clone();
+        }
+    }
+    for (s, t, _) in g.edges.iter_mut() {
+        if let Some(n) = rename.get(s) {
+            *s = n.clone();
+        }
+        if let Some(n) = rename.get(t) {
+            *t = n.clone();
         }
     }
     Ok(g)
